@@ -9,7 +9,7 @@ RULE = (
     "or 300 sampled), cross-tree pairs in all forests up to 4 nodes; distinct = hash of (shape, pair); trivial = start is end"
 )
 ASSUMPTIONS = []
-GATES = ["mon.C15.walk", "C15.cross_tree", "C15.ancestor_pair", "C15.cousins_equal_depth", "C15.root_involved", "C15.same_node"]
+GATES = ["mon.C15.walk", "C15.cross_tree", "C15.ancestor_pair", "C15.cousins_equal_depth", "C15.root_involved", "C15.same_node", "C15.after_mutation"]
 
 
 def plan(tier, seed, jobs):
@@ -88,7 +88,7 @@ def run(ctx):
     from .. import trees as TR
 
     T = ctx.tier == "thorough"
-    fams = ("Node", "NM", "LM", "AnyNode")
+    fams = TR.READ_FAMILIES
     nmax = 9 if T else 8
     idx = 0
     for n in range(1, nmax + 1):
@@ -96,7 +96,7 @@ def run(ctx):
             idx += 1
             if not ctx.mine(idx):
                 continue
-            fam = fams[idx % 4]
+            fam = fams[idx % len(fams)]
             check_universe(ctx, TR.build(par, fam), list(par), {"family": fam, "par": list(par)}, key=(fam, par))
         ctx.exhaustive.append("all ordered trees with %d nodes x all ordered node pairs" % n)
     for k in (2, 3, 4):
@@ -104,19 +104,53 @@ def run(ctx):
             idx += 1
             if not ctx.mine(idx):
                 continue
-            fam = fams[idx % 4]
+            fam = fams[idx % len(fams)]
             check_universe(ctx, TR.build_ch(ch, fam), gen.parents_of(ch), {"family": fam, "state": [list(c) for c in ch]}, key=(fam, ch))
     nrand = (5000 if T else 320) // ctx.nshards + 1
     for r in range(nrand):
         rng = ctx.rng("rand", r)
         n = rng.randint(9, 60)
-        par, kind = gen.random_tree(rng, n)
-        fam = fams[r % 4]
+        kind = None
+        if r % 5 == 1:
+            kind, n = "spinebush", rng.randint(45, 120)
+        par, kind = gen.random_tree(rng, n, kind)
+        fam = fams[r % len(fams)]
         pairs = None if n <= 25 else [(rng.randrange(n), rng.randrange(n)) for _ in range(300)]
         check_universe(ctx, TR.build(par, fam), list(par), {"family": fam, "par": list(par), "kind": kind}, pairs, key=(fam, par))
+    histories(ctx)
+
+
+def histories(ctx):
+    """The same pairs are walked again on the same node objects after every step of a mutation history."""
+    from .. import trees as TR
+
+    T = ctx.tier == "thorough"
+    nh = (3000 if T else 240) // ctx.nshards + 1
+    for h in range(nh):
+        rng = ctx.rng("hist", h)
+        fam = TR.READ_FAMILIES[h % len(TR.READ_FAMILIES)]
+        k = rng.randint(4, 9)
+        fixed = [(rng.randrange(k), rng.randrange(k)) for _ in range(6)]
+        for nodes, par, ch, case in TR.evolving_universe(ctx, rng, fam, k, rng.randint(4, 20)):
+            ctx.count("C15.after_mutation")
+            pairs = fixed + [(rng.randrange(k), rng.randrange(k)) for _ in range(4)]
+            if not check_universe(ctx, nodes, par, dict(case, pairs=[list(x) for x in pairs]), pairs, key=("hist", h, len(case["history"]))):
+                break
 
 
 def replay(ctx, wit):
+    if "history" in wit["case"]:
+        from .. import trees as TR
+
+        c = wit["case"]
+        ctx.case(("replay",))
+        for nodes, par, ch in TR.replay_universe(c):
+            check_universe(ctx, nodes, par, c, [tuple(x) for x in c.get("pairs", [])] or None, key="replay")
+        return
+    _replay_static(ctx, wit)
+
+
+def _replay_static(ctx, wit):
     from .. import trees as TR
     from .forest_engine import tup
 
